@@ -6,7 +6,7 @@ var extraNotes4 = map[string][2]string{
 	"C09": {"threshold rule for the pyramid walk", "(K1) GetPyramid skips the walk over intermediate chunks only for a single-chunk file (span <= ChunkSize), for no larger threshold."},
 	"C13": {"provenance rule for the counter write-back", "(P2) the value collectGarbage writes back to gcSize does not depend on any variable accumulated by the candidate-selection callback handed to gcIndex.Iterate."},
 	"C17": {"coverage rule of the all-bits-set test behind the fully-downloaded report", "(V1) BitVector.Equals answers true only after a counting loop from 0 to bv.len (bit form, advancing only behind Get(i)) or to bv.len/8 (byte form, advancing only behind b[j]==0xff, the tail compared under the mask 1<<(len%8)-1) has run to its end; (V2) isDownload answers the constant false or Equals of a vector read from the presence table."},
-	"C19": {"must-stage rule", "(F3) every return of a shed *InBatch method is preceded on all paths by a staging call on the batch parameter, or lies only behind a non-nil error of some call — no method decides from the currently stored value to skip the staging."},
+	"C19": {"must-stage rule", "(F3) every return of a shed *InBatch method is preceded on all paths by a staging call on the batch parameter, or lies only behind a non-nil error of some call — no method decides from the currently stored value to skip the staging; (W2) every append onto Index.prefix (the filter prefix of Iterate / First / Last) starts from bytes clipped to their length, at the site or at every store of the field — the shared prefix bytes are never written."},
 	"C39": {"coverage rule of the all-bits-set test", "(V1) as C17.V1."},
 	"C22": {"adjacency rule for the saturation pass", "(G4) in recalcDepth's saturation callback the cursor cell (compared == with the peer's bin) is set to the peer's bin only behind bin <= cursor+1: a bin with no reachable peer is not passed over."},
 	"C20": {"scan-width rule", "(K1) the byte limit of the comparison loop in Proximity / ExtendedProximity starts from a constant K with K*8 >= the function's own cap (MaxPO / ExtendedPO)."},
